@@ -462,6 +462,25 @@ func genMix(prop string, seed uint64, run int, o mixOpts) *Scenario {
 			setup = append(setup, addOp(f))
 		}
 	}
+	if o.spellings && g.chance(0.3) {
+		// a sub-directory reached through a symbolic link to its parent, with a
+		// ".." in the spelling: cleaning is lexical, the name stays under the link
+		for _, sd := range g.paths('d') {
+			if i := strings.Index(sd, "/"); i > 0 && !strings.Contains(sd[i+1:], "/") && sd[:i] != "out" {
+				base := sd[i+1:]
+				// the link goes in just before the Watcher is made (the tree exists by then)
+				var ns []Op
+				for _, op := range setup {
+					if op.K == OpNewWatcher {
+						ns = append(ns, Op{K: OpSymlink, P: "lnk", P2: sd[:i]})
+					}
+					ns = append(ns, op)
+				}
+				setup = append(ns, Op{K: OpAdd, W: 0, P: []string{"lnk/" + base + "/../" + base, "lnk/" + base, "lnk/./" + base + "/"}[g.r.Intn(3)]})
+				break
+			}
+		}
+	}
 	sc.Setup = setup
 	nops := 3 + g.r.Intn(o.maxOps)
 	world := o.world
